@@ -188,9 +188,13 @@ def run_case(case):
                         if sv[-1] < 1e-6 * sv[0]:
                             acc.ok(('b-rank', n, ik, d, ns, tn), True, 'export-ok(rank-deficient table)')
                             continue
-                        back = pe.import_bootstrap(b, 'A|r1', tab)
-                        got = back.deltas['A|r1'] + back.r_values['A|r1']
                         cond = sv[0] / sv[-1]
+                        try:
+                            back = pe.import_bootstrap(b, 'A|r1', tab)
+                        except Exception as e:
+                            acc.fail('bootstrap:import-refused', sub, 'n=%d ns=%d table=%s (full column rank, condition %g): import_bootstrap raised %s: %s' % (n, ns, tn, cond, type(e).__name__, e))
+                            continue
+                        got = back.deltas['A|r1'] + back.r_values['A|r1']
                         if back.value != o.value or not np.all(np.abs(got - x) <= 1e-11 * cond * sc):
                             acc.fail('bootstrap:import', sub, 'n=%d ns=%d table=%s: import does not restore the samples (max diff %g, cond %g)' % (n, ns, tn, np.max(np.abs(got - x)), cond))
                             continue
